@@ -18,12 +18,12 @@ PASS_MODES = ["default", "simple", "unroll", "heutopo", "mamba"]
 def plan(tier, seed):
   q = tier == "quick"
   return [{"hashseed": (seed * 29 + i) % 1013, "heap_pad": (i * 613 + seed * 71) % 7000, "noaslr": i % 2 == 1,
-           "designs": 40 if q else 400, "greenlet": 8 if q else 120} for i in range(16)]
+           "designs": 40 if q else 400, "greenlet": 8 if q else 120, "methods": 12 if q else 200} for i in range(16)]
 
 
 def thresholds(tier):
   t = {"designs": 150, "ordered_pairs_checked": 3000, "discriminating_stale_read_comparisons": 1000, "passes_checked": 5000,
-       "designs_with_pairs": 100, "rejections_checked": 16, "greenlet_orderings_checked": 2000, "greenlet_designs": 60, "explicit_constraints_checked": 2000}
+       "designs_with_pairs": 100, "rejections_checked": 16, "greenlet_orderings_checked": 2000, "greenlet_designs": 60, "explicit_constraints_checked": 2000, "method_orderings_checked": 1500, "method_designs_with_required_orders": 80}
   if tier == "thorough":
     t = {k: v * 15 for k, v in t.items()}
     t["rejections_checked"] = 100          # the rejection stream has a fixed size per shard
@@ -152,9 +152,165 @@ def run_greenlet_case(sh, case):
   sh.count("greenlet_designs"); sh.fp("greenlet", src)
 
 
+# ---------------------------------------------------------------------------
+# CL stream: method ordering constraints.  Callee components declare M(x) < M(y), U(blk) < M(x), M(x) < U(blk) (both spellings
+# of <); caller blocks reach the methods directly, through CallerPorts, through a pass-through CalleePort of an intermediate
+# component, through a non-blocking interface, or through one or two pass-through ADAPTERS (a method that calls a CallerPort
+# in its body and declares M(recv) == M(send), the way stdlib adapters do).  The oracle looks at nothing but the declared
+# explicit constraints and the events of a tick: every invocation of x precedes every invocation of y for M(x) < M(y); the
+# block precedes / follows every invocation of x for U(blk) < M(x) / M(x) < U(blk).  No transitive closure is demanded.
+# ---------------------------------------------------------------------------
+
+def gen_method_design(rng):
+  ncal = rng.randrange(1, 3)
+  L = ["from pymtl3 import *", "LOG = []",
+       "class Adapt(Component):",
+       "  @method_port",
+       "  def recv(s):",
+       "    LOG.append(('a', s.tag)); s.send()",
+       "  def construct(s, tag):",
+       "    s.tag = tag",
+       "    s.send = CallerPort()",
+       "    s.add_constraints( M(s.recv) == M(s.send) )"]
+  points = []
+  comps = []
+  for c in range(ncal):
+    nm = rng.randrange(2, 6); ncu = rng.randrange(0, 3)
+    comps.append((nm, ncu))
+    points += [("m", c, j) for j in range(nm)] + [("cu", c, j) for j in range(ncu)]
+  rng.shuffle(points)
+  rank = {pt: i for i, pt in enumerate(points)}
+  cons = {c: [] for c in range(ncal)}; top_cons = []; explicit = []
+  def name(pt, inside):
+    pre = "s." if inside == pt[1] else f"s.c{pt[1]}."
+    return f"M({pre}m{pt[2]})" if pt[0] == "m" else f"U(cu{pt[2]})"
+  for _ in range(rng.randrange(len(points) // 2, 2 * len(points))):
+    a, b = rng.sample(points, 2)
+    if rank[a] > rank[b]: a, b = b, a
+    if a[0] == "cu" and b[0] == "cu": continue
+    if a[1] != b[1] and (a[0] == "cu" or b[0] == "cu"): continue          # a callee's own block is only named inside that callee
+    inside = a[1] if a[1] == b[1] else None
+    txt = f"{name(a, inside)} < {name(b, inside)}" if rng.random() < 0.6 else f"{name(b, inside)} > {name(a, inside)}"
+    (cons[a[1]] if inside is not None else top_cons).append(txt)
+    explicit.append((a, b, txt))
+  for c, (nm, ncu) in enumerate(comps):
+    L.append(f"class Callee{c}(Component):")
+    kinds = []
+    for j in range(nm):
+      kind = rng.choice(["port", "port", "nb"])
+      kinds.append(kind)
+      L.append("  @method_port" if kind == "port" else "  @non_blocking(lambda s: True)")
+      L.append(f"  def m{j}(s): LOG.append(('m', {c}, {j}))")
+    comps[c] = (nm, ncu, kinds)
+    L.append("  def construct(s):")
+    for j in range(ncu):
+      L += ["    @update_once", f"    def cu{j}():", f"      LOG.append(('cu', {c}, {j}))"]
+    if cons[c]:
+      L.append("    s.add_constraints( " + ", ".join(cons[c]) + " )")
+    elif not ncu:
+      L.append("    pass")
+  L += ["class Mid(Component):", "  def construct(s):"]
+  for c in range(ncal):
+    L.append(f"    s.c{c} = Callee{c}()")
+  passthru = []; adapters = {}
+  nad = 0
+  for c, (nm, ncu, kinds) in enumerate(comps):
+    for j in range(nm):
+      if kinds[j] != "port": continue
+      if rng.random() < 0.3:
+        L.append(f"    s.p{c}_{j} = CalleePort(); connect(s.p{c}_{j}, s.c{c}.m{j})"); passthru.append((c, j))
+      if rng.random() < 0.55:
+        L.append(f"    s.ad{nad} = Adapt({nad}); connect(s.ad{nad}.send, s.c{c}.m{j})")
+        entry = f"ad{nad}"; nad += 1
+        if rng.random() < 0.35:           # a chain of two adapters
+          L.append(f"    s.ad{nad} = Adapt({nad}); connect(s.ad{nad}.send, s.{entry}.recv)")
+          entry = f"ad{nad}"; nad += 1
+        adapters[(c, j)] = entry
+  if top_cons:
+    L.append("    s.add_constraints( " + ", ".join(top_cons) + " )")
+  L += ["class MTop(Component):", "  def construct(s):", "    s.mid = Mid()"]
+  bi = 0
+  decl, blks = [], []
+  ncallers = 0
+  for c, (nm, ncu, kinds) in enumerate(comps):
+    for j in range(nm):
+      for _ in range(rng.choice([0, 1, 1, 1, 2])):
+        bn = f"b{bi}"; bi += 1; ncallers += 1
+        r = rng.random()
+        if kinds[j] == "nb":
+          if r < 0.5:
+            decl.append(f"    s.q{bn} = CallerIfcCL(); connect(s.q{bn}, s.mid.c{c}.m{j})"); call = f"if s.q{bn}.rdy(): s.q{bn}()"
+          else:
+            call = f"s.mid.c{c}.m{j}()"
+        elif (c, j) in adapters and r < 0.6:
+          if rng.random() < 0.5:
+            decl.append(f"    s.q{bn} = CallerPort(); connect(s.q{bn}, s.mid.{adapters[(c, j)]}.recv)"); call = f"s.q{bn}()"
+          else:
+            call = f"s.mid.{adapters[(c, j)]}.recv()"
+        elif (c, j) in passthru and r < 0.8:
+          decl.append(f"    s.q{bn} = CallerPort(); connect(s.q{bn}, s.mid.p{c}_{j})"); call = f"s.q{bn}()"
+        elif rng.random() < 0.5:
+          decl.append(f"    s.q{bn} = CallerPort(); connect(s.q{bn}, s.mid.c{c}.m{j})"); call = f"s.q{bn}()"
+        else:
+          call = f"s.mid.c{c}.m{j}()"
+        blks += ["    @update_once", f"    def {bn}():", f"      LOG.append(('b', '{bn}'))", "      " + call]
+  L += decl + blks
+  if not blks:
+    L.append("    pass")
+  return "\n".join(L) + "\n", explicit, ncallers
+
+
+def run_method_case(sh, case):
+  rng = sh.rng("method", case)
+  src, explicit, ncallers = gen_method_design(rng)
+  mod = G.load_source(src, "c02m")
+  tag = ("method", case)
+  try:
+    for mode in ("default", "simple", "simple", "simple"):
+      top = mod.MTop()
+      try:
+        simmon.apply_mode(top, mode, rng)
+      except Exception as e:
+        sh.violation("scheduler-raised-on-legal-CL-design", {"mode": mode, "error": repr(e)[:300], "source": src}, case=tag); continue
+      for cyc in range(2):
+        del mod.LOG[:]
+        try:
+          top.sim_tick()
+        except Exception as e:
+          sh.violation("simulation-raised-on-legal-CL-design", {"mode": mode, "error": repr(e)[:300], "source": src}, case=tag); break
+        log = [tuple(e) for e in mod.LOG]
+        where = {}
+        for idx, ent in enumerate(log):
+          if ent[0] in ("m", "cu"):
+            where.setdefault(ent, []).append(idx)
+        for ent, idxs in where.items():
+          if ent[0] == "cu" and len(idxs) != 1:
+            sh.violation("block-executed-twice-in-a-tick", {"mode": mode, "block": ent, "source": src}, case=tag)
+        bad = False
+        for (a, b, txt) in explicit:
+          if a not in where or b not in where:
+            sh.count("method_constraints_vacuous(no event)"); continue
+          sh.count("method_orderings_checked")
+          if max(where[a]) > min(where[b]):
+            sh.violation("method-ordering-constraint-not-honoured", {"mode": mode, "constraint": txt, "first": a, "second": b, "cycle": cyc,
+                         "events_of_the_tick": log[:80], "source": src}, case=tag)
+            bad = True; break
+        if bad: break
+      sh.count("method_mode_runs")
+  finally:
+    G.unload(mod)
+  sh.count("method_designs")
+  if explicit: sh.count("method_designs_with_required_orders"); sh.fp("method", src)
+  if "Adapt(" in src.split("class Mid")[1]: sh.count("method_designs_with_adapters")
+  if case < 1:
+    sh.sample({"method_design_source": src[:1800], "explicit_constraints": [t for _, _, t in explicit[:10]]})
+
+
 def run_shard(sh):
   for case in range(sh.params.get("greenlet", 6)):
     run_greenlet_case(sh, case)
+  for case in range(sh.params.get("methods", 10)):
+    run_method_case(sh, case)
   for case in range(sh.params["designs"]):
     if sh.only is not None and str(case) != str(sh.only).strip('"'):
       continue
